@@ -1,14 +1,13 @@
 (* Proofs/CondProofs.v — CurrentCond / ConditionPassed / IT helpers of the translated ArmV6 and
    Registers equal Spec/Arch, for every machine state. *)
 From Coq Require Import ZArith List Bool Lia ZifyBool.
-From ArmV Require Import Lib.PyZ Lib.Monad Lib.Machine Spec.Pseudocode Spec.Expected Spec.Arch
+From ArmV Require Import Lib.PyZ Lib.Monad Lib.Machine Spec.Pseudocode Spec.Expected Spec.Arch Spec.MachineView
   Proofs.BitLemmas Proofs.SpecFacts Proofs.BitsOps Proofs.BitsOps2 Proofs.ShiftOps Proofs.FieldsProofs Proofs.StateLemmas.
 From Gen Require Import enums bits_ops shift regviews records hubm opsyn core.
+From ArmV Require Export Spec.MachineView.
 Import ListNotations.
 Open Scope Z_scope.
 
-Definition cpsr_of (s : machine) : Z := getl (sys s) slot_cpsr.
-Definition iset_of (s : machine) : Z := bit (cpsr_of s) 24 * 2 + bit (cpsr_of s) 5.
 
 Lemma run_get_opcode_w s : get_opcode_w s = Ok (opcode_w s) s. Proof. reflexivity. Qed.
 Lemma run_get_opcode_len s : get_opcode_len s = Ok (opcode_len s) s. Proof. reflexivity. Qed.
